@@ -1,12 +1,12 @@
 SPECIFICATION Spec
 CONSTANTS
   U = "quick"
-  Kind = "list"
-  InitPartial = FALSE
+  Kind = "obj"
+  InitPartial = TRUE
   Mirror = FALSE
   MaxLevel = 40
   Small = FALSE
-  Avoid = FALSE
+  Avoid = TRUE
   SimK = 1
   Acts = {"dset", "oset", "rebind", "ddel", "batch", "lset", "ldel", "slice", "lins", "inplace"}
 CONSTRAINT LevelBound
